@@ -103,6 +103,110 @@ def _close(a, b, tol):
 
 
 # ----------------------------------------------------------------------------------------------------------
+# LAYOUT of the argument arrays (field `lay` of the spec's problems): the same exact numbers stored in different ways
+NOLAY = {"A": "f64", "b": "f64", "x0": "f64"}
+ARRAY_LAYOUTS = ("f64", "int", "f32", "fortran", "view", "rev", "ro", "col", "row")       # numpy arrays ("ndarray" in a docstring)
+
+
+def _lay_build(vals, L):
+    """The exact numbers `vals` (nested list of floats = the spec's rationals) stored in layout L of Solvers.tla.  The spec admits
+    "int" only for integer data and "f32" only for exactly representable data: anything else is a machinery error."""
+    from cuqiverif.core import MachineryError
+    a = np.array(vals, dtype=float)
+    if L in ("f64", "na"):
+        return a
+    if L == "int":
+        ai = a.astype(np.int64)
+        if not np.array_equal(ai.astype(float), a):
+            raise MachineryError("layout int for non-integer data %r" % (vals,))
+        return ai
+    if L == "f32":
+        a32 = a.astype(np.float32)
+        if not np.array_equal(a32.astype(float), a, equal_nan=True):
+            raise MachineryError("layout f32 for data that are not exactly representable: %r" % (vals,))
+        return a32
+    if L == "fortran":
+        return np.asfortranarray(a)
+    if L == "view":                                      # every second element of a larger buffer
+        if a.ndim == 1:
+            v = np.full(2 * a.size + 1, 7.5)[1::2]
+        else:
+            v = np.full((2 * a.shape[0], 2 * a.shape[1] + 1), 7.5)[::2, 1::2]
+        v[...] = a
+        return v
+    if L == "rev":                                       # negative strides
+        return a[::-1].copy()[::-1] if a.ndim == 1 else a[::-1, ::-1].copy()[::-1, ::-1]
+    if L == "ro":
+        a.flags.writeable = False
+        return a
+    if L == "list":
+        return a.tolist()
+    if L == "col":
+        return a.reshape(-1, 1)
+    if L == "row":
+        return a.reshape(1, -1)
+    raise MachineryError("unknown layout %r in the spec's case" % (L,))
+
+
+def _snap(v):
+    """what a call must leave as it is: shape, strides, dtype, flags and bytes of an array (and of the buffer behind a view),
+    the items of a list, the entries of a sparse matrix"""
+    import scipy.sparse as spa
+    if hasattr(v, "_c16_matrix"):
+        return _snap(v._c16_matrix)
+    if spa.issparse(v):
+        return ("sparse", v.shape, str(v.dtype), v.toarray().tobytes())
+    if isinstance(v, np.ndarray):
+        base = v.base if isinstance(v.base, np.ndarray) else None
+        return ("nd", v.shape, v.strides, str(v.dtype), bool(v.flags.writeable), v.tobytes(), None if base is None else base.tobytes())
+    if isinstance(v, (list, tuple)):
+        return (type(v).__name__, tuple(_snap(t) for t in v))
+    return ("scalar", type(v).__name__, repr(v))
+
+
+def _changed(before, args):
+    """names of the arguments whose snapshot differs from the one taken before the call"""
+    return [k for k in sorted(before) if _snap(args[k]) != before[k]]
+
+
+def _lay_of(c):
+    lay = c.get("lay") or NOLAY
+    return lay, any(lay[k] not in ("f64", "na") for k in ("A", "b", "x0"))
+
+
+def _lay_tag(lay):
+    return "A=%s/b=%s/x0=%s" % (lay["A"], lay["b"], lay["x0"])
+
+
+def _lay_refused(ctx, solver, lay, form, e):
+    """a solver that refuses a layout (raises) makes no statement about the problem: recorded, never a mismatch"""
+    ob = ctx.observations.setdefault("layout_refused", {})
+    k = "%s/%s/form=%s" % (solver, _lay_tag(lay), form)
+    ob[k] = type(e).__name__
+
+
+def _lay_returned(ctx, solver):
+    ob = ctx.observations.setdefault("layout_returned", {})
+    ob[solver] = ob.get(solver, 0) + 1
+
+
+def _as_operator(A, form):
+    """matrix form: the laid-out object itself; function form: the user's forward / adjoint callable around it"""
+    if form == "matrix":
+        return A
+    M = np.asarray(A) if isinstance(A, list) else A
+
+    def Aop(v, flag):
+        if flag == 1:
+            return M @ v
+        if flag == 2:
+            return M.T @ v
+        raise ValueError("operator called with flag %r" % (flag,))
+    Aop._c16_matrix = A
+    return Aop
+
+
+# ----------------------------------------------------------------------------------------------------------
 # conjugate gradients
 CG_TOL = 1e-10        # relative normal-residual tolerance handed to the solver
 CG_CMP = 1e-8         # comparison tolerance for iterates / solutions (relative to max(1, |v|_inf))
@@ -113,33 +217,39 @@ def _cg_key(c):
 
 
 def _cg_run(S, c, form, shift=None):
-    """Run the real solver.  Returns (x, k, calls) ; calls = [(flag, vector)] for the function form."""
+    """Run the real solver on the arguments in the layouts of the case.  Returns (x, k, calls, changed); calls = [(flag, vector)] for
+    the function form, changed = the arguments (A, b, x0, P) that are not what they were before the call."""
     import scipy.sparse as spa
-    A = np.array(c["A"], dtype=float).reshape(c["m"], c["n"])
-    b = np.array(c["b"], dtype=float)
-    x0 = np.array(c["x0"], dtype=float)
+    lay, _ = _lay_of(c)
+    A = _lay_build(np.array(c["A"], dtype=float).reshape(c["m"], c["n"]).tolist(), lay["A"])
+    b = _lay_build(c["b"], lay["b"])
+    x0 = _lay_build(c["x0"], lay["x0"])
+    M = np.asarray(A) if isinstance(A, list) else A
     shift = c["shift"] if shift is None else shift
     calls = []
 
     def Aop(v, flag):
         calls.append((flag, np.array(v, dtype=float).copy()))
         if flag == 1:
-            return A @ v
+            return M @ v
         if flag == 2:
-            return A.T @ v
+            return M.T @ v
         raise ValueError("operator called with flag %r" % (flag,))
 
     op = A if form == "matrix" else Aop
     maxit = c["n"] + 6
+    args = {"A": A, "b": b, "x0": x0}
+    if c["solver"] != "cgls":
+        args["P"] = spa.csc_matrix(np.array(c["P"], dtype=float))
+    before = {k: _snap(v) for k, v in args.items()}
     with warnings.catch_warnings():
         warnings.simplefilter("ignore")
         with np.errstate(all="ignore"):
             if c["solver"] == "cgls":
                 x, k = S.CGLS(op, b, x0, maxit, CG_TOL, shift).solve()
             else:
-                P = spa.csc_matrix(np.array(c["P"], dtype=float))
-                x, k = S.PCGLS(op, b, x0, P, maxit, CG_TOL, shift).solve()
-    return np.asarray(x, dtype=float), int(k), calls
+                x, k = S.PCGLS(op, b, x0, args["P"], maxit, CG_TOL, shift).solve()
+    return np.asarray(x, dtype=float), int(k), calls, _changed(before, args)
 
 
 def _expected_calls(c):
@@ -165,26 +275,42 @@ def _calls_conform(calls, exp):
 
 def check_cg(ctx, S, c, sibling=None):
     """c: TLC case of kind cg.  sibling: the case with the same data and shift 0 (used to EXPLAIN a mismatch of PCGLS
-    with shift as the named deviation PcglsIgnoresShift)."""
+    with shift as the named deviation PcglsIgnoresShift).  The arguments are built in the layouts c["lay"] of the case: the
+    expected vectors do not depend on them (spec: LayoutIndependent)."""
     n, solver = c["n"], c["solver"]
     xsol = _qv(c["xsol"])
     K = c["k"]
+    lay, islay = _lay_of(c)
     base = "%s/%%s/shift=%d/form=%%s/m=%d/n=%d" % (solver, c["shift"], c["m"], n)
+    if islay:
+        base = "lay/%s/%s/%%s/shift=%d/form=%%s/m=%d/n=%d" % (solver, _lay_tag(lay), c["shift"], c["m"], n)
     res = {}
     for form in ("matrix", "function"):
         # trivial: the start vector already solves the normal equations (the spec's machine makes no iteration)
-        ctx.case(("cg", solver, c["A"], c["b"], c["x0"], c["shift"], c["P"], form), nontrivial=K >= 1,
-                 facet="cg/" + solver + "/" + form)
+        ctx.case(("cg", solver, c["A"], c["b"], c["x0"], c["shift"], c["P"], form) + ((_lay_tag(lay),) if islay else ()),
+                 nontrivial=K >= 1, facet=("lay/cg/" if islay else "cg/") + solver + "/" + form)
         try:
-            x, k, calls = _cg_run(S, c, form)
+            x, k, calls, changed = _cg_run(S, c, form)
         except Exception as e:
+            from cuqiverif.core import MachineryError
+            if isinstance(e, MachineryError):
+                raise
+            if islay:
+                _lay_refused(ctx, solver, lay, form, e)          # a refused layout: nothing returned, nothing asserted
+                continue
             ctx.mismatch(base % ("raises", form), c, "solver raised %r" % (e,), expected=xsol, observed=repr(e))
             continue
+        if islay:
+            _lay_returned(ctx, solver)
         res[form] = x
         bad = []
+        for a in changed:
+            bad.append(("mutates/" + a, "solve() changed the argument %r it was given (shape / strides / dtype / flags / bytes before and "
+                                        "after the call differ)" % a, None, None))
         if not _close(x, xsol, CG_CMP):
             bad.append(("solution", "returned point is not the solution of the (shifted, preconditioned) normal equations "
-                                    "/ the minimum-norm correction of x0", xsol, x))
+                                    "/ the minimum-norm correction of x0" + (" (arguments in the layouts %s)" % _lay_tag(lay) if islay else ""),
+                        xsol, x))
         if k > n + 1:
             bad.append(("itercount", "more than n (+1) iterations for an n-dimensional problem (exact termination after <= n)",
                         "<= %d" % (n + 1), k))
@@ -201,7 +327,7 @@ def check_cg(ctx, S, c, sibling=None):
         if not bad:
             continue
         # explanation by the named deviation: PCGLS behaves exactly as the spec's machine WITHOUT shift
-        if solver == "pcgls" and c["shift"] != 0 and sibling is not None:
+        if solver == "pcgls" and c["shift"] != 0 and sibling is not None and not changed:
             ok_dev = _close(x, _qv(sibling["xsol"]), CG_CMP)
             if form == "function":
                 ok_dev = ok_dev and _calls_conform(calls, _expected_calls(sibling)) is None
@@ -1185,6 +1311,205 @@ def check_proc(ctx, S, cases, workdir, guard=True):
 
 
 # ----------------------------------------------------------------------------------------------------------
+# kind "lay": the LAYOUT dimension of FISTA / ISTA, LM, the SciPy wrappers and the projections (CGLS / PCGLS: check_cg)
+def _lay_mut(ctx, sig, c, changed):
+    for a in changed:
+        ctx.mismatch(sig + "/mutates/" + a, c, "the call changed the argument %r it was given (shape / strides / dtype / flags / bytes "
+                     "before and after the call differ)" % a)
+
+
+def check_lay_fista(ctx, S, c, idx):
+    """c: a proximal-gradient problem constructed from its KKT system (as kind kkt) with a start vector and the layouts of A, b, x0.
+    The expected point c["exp"] = {x*} does not depend on the layouts; same tolerance as kind kkt."""
+    lay, islay = _lay_of(c)
+    n = c["n"]
+    Af = np.array(c["A"], dtype=float)
+    bvals, x0vals = [_q(q) for q in c["b"]], [_q(q) for q in c["x0"]]
+    exp = [_qv(p) for p in c["exp"]]
+    mu = float(np.linalg.eigvalsh(Af.T @ Af)[0])
+    t = _q(c["steps"][0])
+    runs = [(False, "matrix" if idx % 2 == 0 else "function"), (False, "function" if idx % 2 == 0 else "matrix")]
+    if idx % 3 == 0 or lay["x0"] != "f64":
+        runs.append((True, "matrix" if idx % 2 == 1 else "function"))
+    for adaptive, form in runs:
+        if _over_budget(ctx, "lay/fista/"):
+            return
+        abstol = 1e-8 if adaptive else 1e-10
+        prox, pname = _prox_of(S, c, idx % 3)
+        args = {"A": _lay_build(c["A"], lay["A"]), "b": _lay_build(bvals, lay["b"]), "x0": _lay_build(x0vals, lay["x0"])}
+        ctx.case(("lay", "fista", c["A"], c["h"], c["lam"], c["lo"], c["up"], c["xs"], c["g"], c["x0"], _lay_tag(lay), adaptive, form, pname),
+                 nontrivial=islay, facet="lay/fista/%s" % ("fista" if adaptive else "ista"))
+        sig = "lay/fista/%s/%s/adaptive=%d/form=%s" % (_lay_tag(lay), c["h"], adaptive, form)
+        before = {k: _snap(v) for k, v in args.items()}
+        try:
+            with warnings.catch_warnings():
+                warnings.simplefilter("ignore")
+                with np.errstate(all="ignore"):
+                    x, k = S.FISTA(_as_operator(args["A"], form), args["b"], args["x0"], prox, maxit=60000 if adaptive else 20000,
+                                   stepsize=t, abstol=abstol, adaptive=adaptive).solve()
+        except Exception as e:
+            if islay:
+                _lay_refused(ctx, "fista", lay, form, e)
+            else:
+                ctx.mismatch(sig + "/raises", c, "FISTA raised %r" % (e,))
+            continue
+        _lay_returned(ctx, "fista")
+        _lay_mut(ctx, sig, c, _changed(before, args))
+        tol = 10 * abstol / (t * mu) + 1e-12
+        x = np.asarray(x, dtype=float)
+        err = min(float(np.linalg.norm(x - p)) for p in exp) if x.shape == exp[0].shape and np.all(np.isfinite(x)) else float("inf")
+        if err > tol:
+            ctx.mismatch(sig + "/solution", c, "with the arguments stored as %s the returned point is not the fixed point of the "
+                         "proximal-gradient map (= the unique minimiser of 1/2|Ax-b|^2 + h) within abstol/(t mu); the spec's end point "
+                         "does not depend on the layout of any argument" % _lay_tag(lay), expected=exp[0], observed=x,
+                         detail={"iterations": int(k), "tol": tol, "stepsize": t, "prox": pname})
+
+
+def check_lay_lm(ctx, S, c, idx):
+    import scipy.sparse as spa
+    lay, islay = _lay_of(c)
+    res, jac = _lm_funcs(c)
+    stat = [_qv(p) for p in c["exp"]]
+    x0vals = [_q(q) for q in c["x0"]]
+    ng0 = float(np.linalg.norm(_qv(c["g0"])))
+    gradtol = 1e-8
+    for sparse in ((False, True) if idx % 3 == 0 else (False,)):
+        if _over_budget(ctx, "lay/lm/", 12):
+            return
+        x0 = _lay_build(x0vals, lay["x0"])
+        ctx.case(("lay", "lm", c["fam"], c["B"], c["c"], c["a"], c["d"], c["x0"], lay["x0"], sparse), nontrivial=islay and ng0 > 0,
+                 facet="lay/lm/" + c["fam"])
+        sig = "lay/lm/x0=%s/%s/sparse=%d" % (lay["x0"], c["fam"], sparse)
+        jf = (lambda x: spa.csr_matrix(jac(x))) if sparse else jac
+        before = {"x0": _snap(x0)}
+        try:
+            with warnings.catch_warnings():
+                warnings.simplefilter("ignore")
+                with np.errstate(all="ignore"):
+                    x, info = S.LM(res, x0, jf, maxit=2000, tol=1e-6, gradtol=gradtol, sparse=sparse).solve()
+        except Exception as e:
+            if islay:
+                _lay_refused(ctx, "lm", lay, "sparse=%d" % sparse, e)
+            else:
+                ctx.mismatch(sig + "/raises", c, "LM raised %r" % (e,))
+            continue
+        _lay_returned(ctx, "lm")
+        _lay_mut(ctx, sig, c, _changed(before, {"x0": x0}))
+        x = np.asarray(x, dtype=float)
+        tol = 1e-9 + 100 * gradtol * ng0                        # as kind lm
+        dist = min(float(np.linalg.norm(x - p)) for p in stat) if x.shape == stat[0].shape and np.all(np.isfinite(x)) else float("inf")
+        if dist > tol:
+            ctx.mismatch(sig + "/solution", c, "with the start vector stored as %s LM did not return a stationary point of the sum of "
+                         "squares (J^T r = 0)" % lay["x0"], expected=[p.tolist() for p in stat], observed=x, detail={"tol": tol})
+
+
+def check_lay_wrap(ctx, S, c):
+    """the wrapper relation for a start vector in the layout of the case: SciPy called directly with an equal object is the reference"""
+    lay, islay = _lay_of(c)
+    sense, sign = c["sense"], c["sign"]
+    w, method, grad = c["wrapper"], c["method"], bool(c["grad"])
+    ob = _objective(c, sense)
+    x0vals = [float(t) for t in c["x0"]]
+    x0 = _lay_build(x0vals, lay["x0"])
+    sig = "lay/wrap/x0=%s/%s/method=%s/grad=%d" % (lay["x0"], w, method, 1 if grad else 0)
+    ctx.case(("lay", "wrap", w, method, c["obj"], c["a"], c["c"], c["x0"], c["grad"], c["opt"], lay["x0"]), nontrivial=islay,
+             facet="lay/wrap/" + w)
+    before = {"x0": _snap(x0)}
+    got, e1 = _call(lambda: _wrap_new(S, w, ob, x0, grad, method, _kwargs(c["kw"])).solve())
+    changed = _changed(before, {"x0": x0})
+    ref, e2 = _call(lambda: _wrap_reference(w, ob, sign, _lay_build(x0vals, lay["x0"]), grad, method, _kwargs(c["kw"])))
+    _lay_mut(ctx, sig, c, changed)
+    if e1 is not None and lay["x0"] == "list":
+        _lay_refused(ctx, w, lay, method, e1)                   # x0 is documented as ndarray: a refused list asserts nothing
+        return
+    if e1 is None:
+        _lay_returned(ctx, w)
+    _wrap_compare(ctx, c, sig, w, got, e1, ref, e2, ob["c"], sense)
+
+
+def _prox_bound(form, vec, lb, like):
+    """one bound of the box as the spec hands it over: left out, one float, or a vector in the layout lb (in the shape of the point)"""
+    if form == "none":
+        return None
+    if form == "scalar":
+        return float(vec[0])
+    v = _lay_build([float(t) for t in vec], lb)
+    if like in ("col", "row"):
+        v = _lay_build([float(t) for t in vec], like)
+    return v
+
+
+def check_lay_prox(ctx, S, c):
+    """the shipped projections / soft-thresholding on a point (and bounds) in the layouts of the case; their arguments are documented as
+    array_like: exact equality with the spec's image, in the shape of the input; the inputs stay what they were"""
+    lay, islay = _lay_of(c)
+    lx, lb = lay["x0"], lay["b"]
+    op = c["op"]
+    xv, out = [_q(q) for q in c["x"]], _qv(c["out"])
+    lo, up = _qev(c["lo"]), _qev(c["up"])
+    gam = _q(c["gam"])
+    name = {"nonneg": "ProjectNonnegative", "box": "ProjectBox", "l1": "ProximalL1"}[op]
+    sig = "lay/prox/%s/%s/x=%s/bounds=%s" % (name, c["box"], lx, lb)
+
+    def call(X, L, U):
+        if op == "nonneg":
+            return S.ProjectNonnegative(X)
+        if op == "l1":
+            return S.ProximalL1(X, gam)
+        kw = {}
+        if L is not None:
+            kw["lower"] = L
+        if U is not None:
+            kw["upper"] = U
+        return S.ProjectBox(X, **kw)
+
+    if lx == "scalar":
+        # 0-d: every component on its own (the maps act componentwise), as python float and as 0-d array
+        todo = []
+        for i in range(len(xv)):
+            for kind0, X in (("float", float(xv[i])), ("0d", np.array(xv[i]))):
+                L = None if c["form"][0] == "none" else float(lo[0] if c["form"][0] == "scalar" else lo[i])
+                U = None if c["form"][1] == "none" else float(up[0] if c["form"][1] == "scalar" else up[i])
+                todo.append(("%d.%s" % (i, kind0), X, L, U, np.array(out[i]), ()))
+    else:
+        X = _lay_build(xv, lx)
+        shape = np.shape(X)
+        todo = [("", X, _prox_bound(c["form"][0], lo, lb, lx), _prox_bound(c["form"][1], up, lb, lx), out.reshape(shape), shape)]
+    for tag, X, L, U, want, shape in todo:
+        ctx.case(("lay", "prox", op, c["x"], c["gam"], c["box"], lx, lb, tag), nontrivial=islay, facet="lay/prox/" + op)
+        args = {"x": X, "lower": L, "upper": U}
+        before = {k: _snap(v) for k, v in args.items()}
+        try:
+            with warnings.catch_warnings():
+                warnings.simplefilter("ignore")
+                with np.errstate(all="ignore"):
+                    v = np.asarray(call(X, L, U), dtype=float)
+        except Exception as e:
+            ctx.mismatch(sig + "/raises", c, "%s raised %r on an admissible input (array_like point stored as %s, bounds as %s)"
+                         % (name, e, lx, lb), expected=want, observed=repr(e))
+            continue
+        _lay_mut(ctx, sig, c, _changed(before, args))
+        if v.shape != want.shape or not np.array_equal(v, want):
+            ctx.mismatch(sig, c, "%s is not the exact Euclidean projection / proximal map of the point stored as %s (bounds as %s)"
+                         % (name, lx, lb), expected=want, observed=v)
+
+
+def check_lay(ctx, S, c, idx):
+    sv = c["solver"]
+    if sv == "fista":
+        check_lay_fista(ctx, S, c, idx)
+    elif sv == "lm":
+        check_lay_lm(ctx, S, c, idx)
+    elif sv == "wrap":
+        check_lay_wrap(ctx, S, c)
+    elif sv == "prox":
+        check_lay_prox(ctx, S, c)
+    else:
+        from cuqiverif.core import MachineryError
+        raise MachineryError("kind lay: unknown solver %r" % (sv,))
+
+
+# ----------------------------------------------------------------------------------------------------------
 def _dispatch(ctx, S, cases, thorough):
     sib = {}
     for c in cases:
@@ -1192,6 +1517,7 @@ def _dispatch(ctx, S, cases, thorough):
             sib[_cg_key(c)] = c
     counts = {}
     kidx = sidx = 0
+    lidx = {}
     for c in cases:
         k = c["kind"]
         counts[k] = counts.get(k, 0) + 1
@@ -1211,6 +1537,9 @@ def _dispatch(ctx, S, cases, thorough):
         elif k == "seq":
             check_seq(ctx, S, c, sidx)
             sidx += 1
+        elif k == "lay":
+            check_lay(ctx, S, c, lidx.get(c["solver"], 0))
+            lidx[c["solver"]] = lidx.get(c["solver"], 0) + 1
     return counts
 
 
